@@ -3,6 +3,7 @@
 #pragma once
 #include "driver.h"
 #include "world.h"
+#include "sealaudit.h"
 
 struct DeathInfo {
     bool dead = false;
@@ -63,6 +64,8 @@ class ProtoRun {
     Bytes held_b[2]; bool held_mod[2] = { false, false }, have_held[2] = { false, false };
     int encode_attempts = 0;
     size_t next_honest[2] = { 0, 0 };      // TLS: index of the next honest record the receiver of this direction has not been given yet
+    SealAudit audit;                       // C17 oracle state (fed by every probe)
+    bool ccs_emitted[2] = { false, false };
     uint64_t probe_next = 0;               // next probe sequence number (all probe kinds)
     uint64_t seal_seq_at_death[2] = { 0, 0 };
 
